@@ -107,6 +107,10 @@ pub struct PlanCase {
     /// plan on the library's own space object instead of the recording wrapper (see `Flavor`)
     #[serde(default)]
     pub raw_space: bool,
+    /// PRM only: the construction time passed to `PRM::new` and in force during budgeted
+    /// `Construct` ops (default: effectively unlimited). May be negative, zero, NaN or huge.
+    #[serde(default, with = "crate::xf::as_opt_xf")]
+    pub prm_timeout: Option<f64>,
 }
 
 impl PlanCase {
@@ -290,7 +294,7 @@ impl<K: Kind, F: Flavor<K>> AnyPlanner<K, F> {
             PlannerTag::RRTStar => {
                 AnyPlanner::Star(RRTStar::new(case.step, case.goal_bias, case.radius, &cfg))
             }
-            PlannerTag::PRM => AnyPlanner::Prm(PRM::new(1.0e9, case.radius, &cfg)),
+            PlannerTag::PRM => AnyPlanner::Prm(PRM::new(case.prm_timeout.unwrap_or(1.0e9), case.radius, &cfg)),
         }
     }
     fn setup(&mut self, pd: Arc<PD<K, F>>, vc: Arc<WChecker<K>>) {
@@ -528,7 +532,7 @@ fn run_case_f<K: Kind, F: Flavor<K>>(case: &PlanCase) -> Result<Trace, String> {
                 }
                 Op::Construct { budget } => {
                     if let AnyPlanner::Prm(p) = &mut planner {
-                        p.timeout = 1.0e9;
+                        p.timeout = case.prm_timeout.unwrap_or(1.0e9);
                         oxmpl::verif::set_budget(Some(*budget));
                         let r = p.construct_roadmap();
                         ticks = oxmpl::verif::ticks_used();
